@@ -6,6 +6,7 @@ import (
 	"fmt"
 	"io"
 	"math"
+	"os"
 	"sort"
 	"strings"
 	"sync/atomic"
@@ -41,6 +42,9 @@ type srv struct {
 func boot(t *testing.T, flags ...string) *srv {
 	gomega.RegisterFailHandler(func(message string, _ ...int) { panic("setup: " + message) })
 	ff := append([]string{"--measure-flush-timeout=200ms", "--stream-flush-timeout=200ms", "--trace-flush-timeout=200ms"}, flags...)
+	if os.Getenv("VERIF_ROW_ENGINE") != "" && len(flags) == 0 { // unit variant: the same workload against the row-based query engine
+		ff = append(ff, "--measure-vectorized-enabled=false", "--stream-vectorized-enabled=false")
+	}
 	addr, _, stop := setup.EmptyStandalone(nil, ff...)
 	conn, err := grpc.NewClient(addr, grpc.WithTransportCredentials(insecure.NewCredentials()),
 		grpc.WithDefaultCallOptions(grpc.MaxCallRecvMsgSize(256<<20), grpc.MaxCallSendMsgSize(256<<20)))
